@@ -46,6 +46,16 @@ impl KeyOfSetColumn for SetWide128 { type Key = u128; type Element = i128; }
 
 #[derive(Debug, Clone, Copy, PartialEq, Eq, PartialOrd, Ord, Hash, Identifiable)]
 #[stable_type_id_crate(qbice_stable_type_id)]
+struct WideEmpty;
+impl WideColumn for WideEmpty {
+    type Discriminant = ();
+    type Key = Vec<u8>;
+    fn discriminant_encoding() -> DiscriminantEncoding { DiscriminantEncoding::Suffixed }
+}
+impl WideColumnValue<WideEmpty> for () { fn discriminant() {} }
+
+#[derive(Debug, Clone, Copy, PartialEq, Eq, PartialOrd, Ord, Hash, Identifiable)]
+#[stable_type_id_crate(qbice_stable_type_id)]
 struct WidePre;
 impl WideColumn for WidePre {
     type Discriminant = Vec<u8>;
@@ -268,6 +278,68 @@ fn first_touch_after_reopen<D: KvDatabase>(name: &str, open: &dyn Fn() -> D) -> 
     checks
 }
 
+/// directed: ONE serialization buffer records several operations on the same slot; consumed and committed, the LAST recorded
+/// operation must win (the recorded order is the order of application) -- for wide columns and for set members
+fn same_slot_twice_in_one_buffer<D: KvDatabase>(name: &str, open: &dyn Fn() -> D) -> u64 {
+    let db = open();
+    let mut checks = 0;
+    let k = vec![1u8, 2, 3];
+    let mut buffer = db.serialization_buffer();
+    buffer.put::<WideSuf, u64>(&k, &111);
+    buffer.put::<WideSuf, u64>(&k, &222);
+    buffer.put::<WidePre, String>(&k, &"old".to_string());
+    buffer.delete::<WidePre, String>(&k);
+    buffer.put::<WidePre, String>(&vec![9u8], &"x".to_string());
+    buffer.delete::<WidePre, String>(&vec![9u8]);
+    buffer.put::<WidePre, String>(&vec![9u8], &"again".to_string());
+    buffer.insert_member::<SetUsize>(&5, &50);
+    buffer.delete_member::<SetUsize>(&5, &50);
+    buffer.delete_member::<SetUsize>(&6, &60);
+    buffer.insert_member::<SetUsize>(&6, &60);
+    let mut batch = db.write_batch();
+    batch.consume_serialization_buffer(buffer);
+    batch.commit();
+    let input = "one serialization buffer: put k=111, put k=222; put k'=old, delete k'; put k''=x, delete k'', put k''=again; insert_member(5,50), delete_member(5,50); delete_member(6,60), insert_member(6,60); consumed by one batch, committed";
+    let g = db.get_wide_column::<WideSuf, u64>(&k); checks += 1;
+    if g != Some(222) { found(&format!("{name}: the last of two puts recorded in one serialization buffer must win"), input, &format!("{g:?}"), "Some(222)"); }
+    let g = db.get_wide_column::<WidePre, String>(&k); checks += 1;
+    if g.is_some() { found(&format!("{name}: put then delete recorded in one serialization buffer"), input, &format!("{g:?}"), "None"); }
+    let g = db.get_wide_column::<WidePre, String>(&vec![9u8]); checks += 1;
+    if g.as_deref() != Some("again") { found(&format!("{name}: put, delete, put recorded in one serialization buffer"), input, &format!("{g:?}"), "Some(\"again\")"); }
+    let s: BTreeSet<usize> = db.scan_members::<SetUsize>(&5).collect(); checks += 1;
+    if !s.is_empty() { found(&format!("{name}: insert_member then delete_member recorded in one serialization buffer"), input, &format!("{s:?}"), "{}"); }
+    let s: BTreeSet<usize> = db.scan_members::<SetUsize>(&6).collect(); checks += 1;
+    if s != BTreeSet::from([60]) { found(&format!("{name}: delete_member then insert_member recorded in one serialization buffer"), input, &format!("{s:?}"), "{60}"); }
+    checks
+}
+
+/// directed: values whose encoding is EMPTY (unit, PhantomData) are values: committed, they read back as Some
+fn empty_encodings<D: KvDatabase>(name: &str, open: &dyn Fn() -> D) -> u64 {
+    let mut checks = 0;
+    {
+        let db = open();
+        let mut b = db.write_batch();
+        b.put::<WideEmpty, ()>(&vec![4u8], &());
+        b.put::<WideEmpty, ()>(&vec![], &());
+        b.commit();
+        let mut buffer = db.serialization_buffer();
+        buffer.put::<WideEmpty, ()>(&vec![5u8], &());
+        let mut b = db.write_batch();
+        b.consume_serialization_buffer(buffer);
+        b.commit();
+        for key in [vec![4u8], vec![], vec![5u8]] {
+            let g = db.get_wide_column::<WideEmpty, ()>(&key); checks += 1;
+            if g != Some(()) { found(&format!("{name}: a committed value with an empty encoding reads back as absent"), &format!("put::<WideEmpty, ()>({key:?}, ()) committed; get"), &format!("{g:?}"), "Some(())"); }
+        }
+        let g = db.get_wide_column::<WideEmpty, ()>(&vec![6u8]); checks += 1;
+        if g.is_some() { found(&format!("{name}: a key that was never written reads as present"), "get::<WideEmpty, ()>([6])", &format!("{g:?}"), "None"); }
+    }
+    let db = open();
+    let g = db.get_wide_column::<WideEmpty, ()>(&vec![4u8]); checks += 1;
+    if g != Some(()) { found(&format!("{name}: a committed value with an empty encoding reads back as absent after reopen"), "put::<WideEmpty, ()>([4], ()) committed; reopen; get", &format!("{g:?}"), "Some(())"); }
+    checks
+}
+
 fn main() {
     let a: Vec<String> = std::env::args().collect();
     let mut seed = 0u64;
@@ -287,12 +359,20 @@ fn main() {
         n += run("rocksdb", &|| RocksDB::open(&p1, Plugin::default()).unwrap(), seed, rounds);
         let p1b = base.join("rocks_first_touch");
         n += first_touch_after_reopen("rocksdb", &|| RocksDB::open(&p1b, Plugin::default()).unwrap());
+        let p1c = base.join("rocks_same_slot");
+        n += same_slot_twice_in_one_buffer("rocksdb", &|| RocksDB::open(&p1c, Plugin::default()).unwrap());
+        let p1d = base.join("rocks_empty");
+        n += empty_encodings("rocksdb", &|| RocksDB::open(&p1d, Plugin::default()).unwrap());
     }
     {
         use qbice_storage::kv_database::fjall::Fjall;
         n += run("fjall", &|| Fjall::open(&p2, Plugin::default()).unwrap(), seed, rounds);
         let p2b = base.join("fjall_first_touch");
         n += first_touch_after_reopen("fjall", &|| Fjall::open(&p2b, Plugin::default()).unwrap());
+        let p2c = base.join("fjall_same_slot");
+        n += same_slot_twice_in_one_buffer("fjall", &|| Fjall::open(&p2c, Plugin::default()).unwrap());
+        let p2d = base.join("fjall_empty");
+        n += empty_encodings("fjall", &|| Fjall::open(&p2d, Plugin::default()).unwrap());
     }
     let _ = std::fs::remove_dir_all(&base);
     println!("{{\"found\": false, \"searched\": {n}}}");
